@@ -452,6 +452,8 @@ def summarise(case):
         'nontrivial': n_nontrivial > 0,
         'shape': '',           # distinctness is per crash point: see below
         'shapes': sorted(shapes),
+        'sets': {'crash_sites': sorted(
+            k[len('site.'):] for k in case['stats'] if k.startswith('site.'))},
         'points': len(case['results']),
         'digest': hashlib.sha256(repr(
             [r['hist'].trace for r in case['results']]).encode())
